@@ -407,6 +407,18 @@ func (r *FnResult) impliedOnNil(v ssa.Value, s *State, d int) {
 	if d > 6 {
 		return
 	}
+	if call, ok := v.(*ssa.Call); ok {
+		switch infoOfCommon(call.Common()).Short {
+		case "firstError", "CombineErrors":
+			// combinator(a, b) == nil implies a == nil and b == nil
+			for _, a := range call.Common().Args {
+				if isErrorType(a.Type()) {
+					r.impliedOnNil(a, s, d+1)
+				}
+			}
+			return
+		}
+	}
 	if call := errResultOf(v); call != nil {
 		for _, sp := range r.fl.specs {
 			if sp.kind == GenOk && sp.m.F(call) {
